@@ -1480,6 +1480,78 @@ func checkDescent(w *World, c *Check, D []*ssa.Function, inD map[*ssa.Function]b
 		}
 	}
 	c.control(rec > 0, "no recursive descent edge found at all: the nested-item decoders are no longer recognised")
+	// (once:elements) a recursive descent is made at most once per element of a decoded list: two passes over the same
+	// list that both decode each member ("validate first, then fill") double the work at every nesting level, so a
+	// kilobyte of nested one-element lists takes exponential time
+	{
+		a2 := adj2(adj)
+		type dcall struct {
+			site *ssa.Call
+			coll ssa.Value
+		}
+		nGroups := 0
+		var fl []*ssa.Function
+		for f := range adj {
+			fl = append(fl, f)
+		}
+		sort.Slice(fl, func(i, j int) bool { return funcName(fl[i]) < funcName(fl[j]) })
+		for _, f := range fl {
+			var calls []dcall
+			for _, e := range adj[f] {
+				call, isCall := e.site.(*ssa.Call)
+				if e.flat || !isCall || !reachesFn(a2, e.to, f) {
+					continue
+				}
+				for i, a := range allArgs(call) {
+					if i >= len(e.to.Params) || !isInputType(e.to.Params[i].Type()) {
+						continue
+					}
+					if coll := elementSource(a); coll != nil {
+						calls = append(calls, dcall{call, coll})
+					}
+				}
+			}
+			if len(calls) < 2 {
+				continue
+			}
+			lh := loopHeaders(f)
+			inner := func(b *ssa.BasicBlock) *ssa.BasicBlock {
+				var h *ssa.BasicBlock
+				for cand := range lh[b] {
+					if h == nil || len(loopBody(lh, cand)) < len(loopBody(lh, h)) {
+						h = cand
+					}
+				}
+				return h
+			}
+			for i := 0; i < len(calls); i++ {
+				for j := i + 1; j < len(calls); j++ {
+					x, y := calls[i], calls[j]
+					if x.site == y.site || x.coll != y.coll {
+						continue
+					}
+					hx, hy := inner(x.site.Block()), inner(y.site.Block())
+					twice := false
+					switch {
+					case hx != nil && hy != nil && hx != hy:
+						// two different loops over the same list, one after the other
+						twice = reaches(hx, hy) || reaches(hy, hx)
+					case hx == hy && hx != nil:
+						// the same round of the same loop reaches both calls
+						twice = reachesWithin(x.site.Block(), y.site.Block(), hx) || reachesWithin(y.site.Block(), x.site.Block(), hx)
+					}
+					nGroups++
+					key := fmt.Sprintf("%s:elements-of-%s", funcName(f), shortVal(x.coll))
+					if twice {
+						c.bad("C04.once", key, w.InstrPos(y.site), fmt.Sprintf("%s decodes the members of one list twice (%s at %s and at %s): nested lists double the work at every level, a small deeply nested stream takes exponential time", funcName(f), funcName(y.site.Common().StaticCallee()), w.InstrPos(x.site), w.InstrPos(y.site)))
+					} else {
+						c.ok("C04.once", key, w.InstrPos(y.site), "alternative decodings of the members, not both on one path")
+					}
+				}
+			}
+		}
+		c.stat("element_descent_pairs", nGroups)
+	}
 	c.ok("C04.rec", "descent-edges-on-cycles", "-", fmt.Sprintf("%d descent edges lie on cycles (nested items)", rec))
 }
 
@@ -1960,4 +2032,31 @@ func checkFollowUpPanics(w *World, c *Check, inD map[*ssa.Function]bool) {
 	}
 	c.stat("encode_format_closure_functions", len(E))
 	c.ok("C04.follow", "scan", "-", fmt.Sprintf("%d encoder/formatter entry points, %d functions in their closure scanned for explicit panics and single-result assertions; %d found", len(entries), len(E), n))
+}
+
+// elementSource: a is an element of a slice (loaded through an index address, indexed, or the loop variable of a
+// range): returns the slice value, with loads of the same local normalised to that local.
+func elementSource(a ssa.Value) ssa.Value {
+	a = unwrap(a)
+	var coll ssa.Value
+	switch x := a.(type) {
+	case *ssa.UnOp:
+		if x.Op != token.MUL {
+			return nil
+		}
+		ia, ok := x.X.(*ssa.IndexAddr)
+		if !ok {
+			return nil
+		}
+		coll = ia.X
+	case *ssa.Index:
+		coll = x.X
+	default:
+		return nil
+	}
+	coll = unwrap(coll)
+	if ld, ok := coll.(*ssa.UnOp); ok && ld.Op == token.MUL {
+		return ld.X // the variable holding the list
+	}
+	return coll
 }
